@@ -26,6 +26,7 @@ Step ==
     /\ Check("C17:block_has_requested_length", Ev.len = Ev.n)
     /\ Check("C17:concatenation_equals_single_request", Ev.match = 1)
     /\ Check("C17:same_seed_same_samples", Ev.same = 1)
+    /\ Check("C17:same_seed_same_samples_in_another_process", Ev.xproc = 1)
     /\ Check("C17:cascade_equals_direct_form_reference", Ev.qref <= 1024)      \* 1e-6 of the output's size on a 70001-sample block
     /\ sum' = sum + Ev.n
     /\ l' = l + 1 /\ UNCHANGED tid
